@@ -20,7 +20,7 @@ scratch = tempfile.mkdtemp(prefix="zrnt-seed-", dir="/var/tmp")
 repo = os.path.join(scratch, "repo"); build = os.path.join(scratch, "build")
 out = {"ran": []}
 def sh(cmd, cwd, timeout=1800):
-    p = subprocess.run(cmd, shell=True, cwd=cwd, env=env, capture_output=True, text=True, timeout=timeout)
+    p = subprocess.run(cmd, shell=True, cwd=cwd, env=env, capture_output=True, text=True, errors="replace", timeout=timeout)
     return p.returncode, (p.stdout + p.stderr)
 try:
     os.makedirs(repo); os.makedirs(build)
